@@ -252,35 +252,52 @@ Definition r_run (cas : list Z) (ops : list rop) : list (Z * rconn) := fold_left
      StRx        serviceAllRx : serviceReceives (whole buffer -> one packet) ; serviceRxPkts delivers
                  it to the remote of that connection (pdel)                                    *)
 Inductive sstep := StConnects | StRecv | StRx | StTx | StSend.
-Record pconn := mkP { palive : bool; pbuf : bytes; pcut : bool; pgot : bytes; pdel : list bytes }.
+(* pacc: accepted (present in handler.ixes at some time); prem: the stack created the remote for
+   this connection address (haRemotes); packets parsed for an address without remote are dropped
+   by RemoteStack.messagize *)
+Record pconn := mkP { palive : bool; pbuf : bytes; pcut : bool; pgot : bytes; pdel : list bytes;
+                      pacc : bool; prem : bool }.
 
+(* serviceConnects: Server.serviceConnects accepts the peers that connected since the last call
+   (appended to .ixes in arrival order), then for every connection of the table: a cut-off one is
+   closed and removed -- and the loop CONTINUES --, any other gets its remote if it has none *)
+Definition p_accept (arr : list Z) (kc : Z * pconn) : Z * pconn :=
+  let c := snd kc in
+  if existsb (Z.eqb (fst kc)) arr && negb (pacc c)
+  then (fst kc, mkP (palive c) (pbuf c) (pcut c) (pgot c) (pdel c) true (prem c)) else kc.
 Definition p_connects (c : pconn) : pconn :=
-  if palive c && pcut c then mkP false (pbuf c) (pcut c) (pgot c) (pdel c) else c.
+  if pacc c && palive c then
+    (if pcut c then mkP false (pbuf c) (pcut c) (pgot c) (pdel c) true (prem c)
+     else mkP true (pbuf c) (pcut c) (pgot c) (pdel c) true true)
+  else c.
 Definition p_recv (c : pconn) (orc : list rres) : pconn :=
-  if palive c && negb (pcut c) then
+  if pacc c && palive c && negb (pcut c) then
     let '(b, cu, rest) := conn_rx orc (pbuf c) in
-    mkP true b cu (pgot c ++ datas (consumed orc rest)) (pdel c)
+    mkP true b cu (pgot c ++ datas (consumed orc rest)) (pdel c) true (prem c)
   else c.
 Definition p_rx (c : pconn) : pconn :=
-  if palive c then
+  if pacc c && palive c then
     match pbuf c with
     | [] => c
-    | _ :: _ => mkP true [] (pcut c) (pgot c) (pdel c ++ [pbuf c])
+    | _ :: _ => mkP true [] (pcut c) (pgot c) (if prem c then pdel c ++ [pbuf c] else pdel c) true (prem c)
     end
   else c.
 
-Definition p_step (orcs : list (Z * list rres)) (cs : list (Z * pconn)) (st : sstep) : list (Z * pconn) :=
+Definition ppass := (list Z * list (Z * list rres))%type.   (* (peers connecting, recv oracles) *)
+
+Definition p_step (ps : ppass) (cs : list (Z * pconn)) (st : sstep) : list (Z * pconn) :=
   match st with
-  | StConnects => map (fun kc => (fst kc, p_connects (snd kc))) cs
-  | StRecv => map (fun kc => (fst kc, p_recv (snd kc) (lookup (fst kc) orcs))) cs
+  | StConnects => map (fun kc => (fst kc, p_connects (snd kc))) (map (p_accept (fst ps)) cs)
+  | StRecv => map (fun kc => (fst kc, p_recv (snd kc) (lookup (fst kc) (snd ps)))) cs
   | StRx => map (fun kc => (fst kc, p_rx (snd kc))) cs
   | StTx | StSend => cs
   end.
 
-Definition p_pass (order : list sstep) (cs : list (Z * pconn)) (orcs : list (Z * list rres)) : list (Z * pconn) :=
-  fold_left (p_step orcs) order cs.
-Definition p_init (cas : list Z) : list (Z * pconn) := map (fun ca => (ca, mkP true [] false [] [])) cas.
-Definition p_run (order : list sstep) (cas : list Z) (passes : list (list (Z * list rres))) : list (Z * pconn) :=
+Definition p_pass (order : list sstep) (cs : list (Z * pconn)) (ps : ppass) : list (Z * pconn) :=
+  fold_left (p_step ps) order cs.
+(* cas lists the peers in the order in which they will connect (= order of handler.ixes) *)
+Definition p_init (cas : list Z) : list (Z * pconn) := map (fun ca => (ca, mkP true [] false [] [] false false)) cas.
+Definition p_run (order : list sstep) (cas : list Z) (passes : list ppass) : list (Z * pconn) :=
   fold_left (p_pass order) passes (p_init cas).
 
 (* the order is safe when no serviceConnects runs while bytes read by StRecv are still unparsed
